@@ -293,3 +293,218 @@ func before(a, b ssa.Instruction) bool {
 	}
 	return false
 }
+
+// POOL-USE-AFTER-PUT: an object handed back to a sync.Pool belongs to the next
+// Get -- possibly another goroutine -- from that moment on.  Reading it after
+// the (non-deferred) Put races with that other user.
+func rulePoolUseAfterPut(w *World, r *Report) {
+	r.Rule("POOL-USE-AFTER-PUT", "a value is not read after it was handed back with (*sync.Pool).Put (a deferred Put excepted): from then on it belongs to whoever Gets it next")
+	for _, f := range w.ModFuncs {
+		if f.Blocks == nil || f.Synthetic != "" {
+			continue
+		}
+		can := w.IsCanary(f)
+		name := w.FuncName(f)
+		ord := 0
+		instrs(f, func(in ssa.Instruction) {
+			c, ok := in.(*ssa.Call)
+			if !ok {
+				return
+			}
+			cal := c.Call.StaticCallee()
+			if cal == nil || cal.Name() != "Put" || pkgOf(cal) == nil || pkgOf(cal).Path() != "sync" || len(c.Call.Args) != 2 {
+				return
+			}
+			v := c.Call.Args[1]
+			if mi, ok := v.(*ssa.MakeInterface); ok {
+				v = mi.X
+			}
+			if _, isConst := v.(*ssa.Const); isConst || v.Referrers() == nil {
+				return
+			}
+			ord++
+			key := fmt.Sprintf("POOL-USE-AFTER-PUT / %s / put#%d", name, ord)
+			after := reachableFrom(c.Block(), nil)
+			bad := ""
+			// values that share storage with the pooled object: what is stored behind a pooled
+			// pointer, what is loaded from it, and slices / appends built on those
+			alias := map[ssa.Value]bool{v: true}
+			for changed, rounds := true, 0; changed && rounds < 6; rounds++ {
+				changed = false
+				add := func(x ssa.Value) {
+					if x != nil && !alias[x] {
+						if _, isK := x.(*ssa.Const); !isK {
+							alias[x] = true
+							changed = true
+						}
+					}
+				}
+				for a := range alias {
+					if a.Referrers() == nil {
+						continue
+					}
+					for _, ref := range *a.Referrers() {
+						switch x := ref.(type) {
+						case *ssa.Store:
+							if x.Addr == a && isSlice(x.Val.Type()) {
+								add(x.Val)
+							}
+						case *ssa.UnOp:
+							if x.X == a && isSlice(x.Type()) {
+								add(x)
+							}
+						case *ssa.Slice:
+							add(x)
+						case *ssa.Phi:
+							if isSlice(x.Type()) {
+								add(x)
+							}
+						case *ssa.Call:
+							if builtinName(x) == "append" && len(x.Call.Args) > 0 && x.Call.Args[0] == a {
+								add(x)
+							}
+							if cal := x.Call.StaticCallee(); cal != nil && pkgOf(cal) != nil && pkgOf(cal).Path() == "strconv" && strings.HasPrefix(cal.Name(), "Append") && len(x.Call.Args) > 0 && x.Call.Args[0] == a {
+								add(x)
+							}
+						}
+					}
+					// what an alias was built from (id = append(id0, ..): id0 shares the storage too)
+					switch y := a.(type) {
+					case *ssa.Phi:
+						for _, e := range y.Edges {
+							if isSlice(e.Type()) {
+								add(e)
+							}
+						}
+					}
+				}
+			}
+			for a := range alias {
+				if a == v || a.Referrers() == nil {
+					continue
+				}
+				for _, ref := range *a.Referrers() {
+					switch ref.(type) {
+					case *ssa.Convert, *ssa.Index, *ssa.IndexAddr, *ssa.Return, *ssa.Range, *ssa.Lookup:
+					default:
+						continue
+					}
+					rb := ref.Block()
+					later := false
+					if rb == c.Block() {
+						later = before(c, ref)
+					} else {
+						later = after[rb] && !rb.Dominates(c.Block())
+					}
+					if later && bad == "" {
+						bad = shortInstr(ref) + " at " + w.Pos(ref.Pos()) + " (it shares storage with the pooled object)"
+					}
+				}
+			}
+			for _, ref := range *v.Referrers() {
+				if ref == ssa.Instruction(c) {
+					continue
+				}
+				if _, isDbg := ref.(*ssa.DebugRef); isDbg {
+					continue
+				}
+				if mi, ok := ref.(*ssa.MakeInterface); ok && mi == c.Call.Args[1] {
+					continue
+				}
+				rb := ref.Block()
+				if rb == nil {
+					continue
+				}
+				later := false
+				if rb == c.Block() {
+					later = before(c, ref) && ref != ssa.Instruction(c)
+				} else {
+					// reachable from the Put without the Put's block being re-entered first
+					later = after[rb] && !rb.Dominates(c.Block())
+				}
+				if later && bad == "" {
+					bad = shortInstr(ref) + " at " + w.Pos(ref.Pos())
+				}
+			}
+			if bad != "" {
+				r.Add(Obligation{Rule: "POOL-USE-AFTER-PUT", Key: key, Pos: w.Pos(c.Pos()), Status: Violated, Canary: can, Detail: "the value handed back to the pool here is still read afterwards (" + bad + "): the next Get, possibly on another goroutine, overwrites it meanwhile"})
+			} else {
+				r.Add(Obligation{Rule: "POOL-USE-AFTER-PUT", Key: key, Pos: w.Pos(c.Pos()), Status: Discharged, Canary: can, Detail: "nothing reads the value after the Put"})
+			}
+		})
+	}
+}
+
+// HASHKEY: a seen-set (or memo) keyed by a hash of the element instead of the
+// element: two different elements with the same hash are taken for one.
+func ruleHashKey(w *World, r *Report) {
+	r.Rule("HASHKEY", "a set or memo is keyed by the element (or an injective encoding of it), not by a hash of it (hash/fnv, hash/crc32, hash/maphash ...): elements whose hashes collide would be taken for the same element")
+	n := 0
+	fromHash := func(v ssa.Value) string {
+		found := ""
+		var walk func(x ssa.Value, d int)
+		walk = func(x ssa.Value, d int) {
+			if found != "" || d > 5 || x == nil {
+				return
+			}
+			x = resolve(x)
+			switch y := x.(type) {
+			case *ssa.Call:
+				cal := y.Call.StaticCallee()
+				if cal != nil && pkgOf(cal) != nil && (strings.HasPrefix(pkgOf(cal).Path(), "hash/") || pkgOf(cal).Path() == "hash") {
+					found = cal.String()
+					return
+				}
+				if y.Call.IsInvoke() && y.Call.Method != nil && (y.Call.Method.Name() == "Sum32" || y.Call.Method.Name() == "Sum64") {
+					found = "hash " + y.Call.Method.Name()
+					return
+				}
+				if cal != nil && w.InModule(cal) && cal.Blocks != nil && d < 3 {
+					for _, ret := range returnsOf(cal) {
+						for _, rv := range ret.Results {
+							walk(rv, d+2)
+						}
+					}
+				}
+			case *ssa.Convert:
+				walk(y.X, d+1)
+			case *ssa.BinOp:
+				walk(y.X, d+1)
+				walk(y.Y, d+1)
+			case *ssa.Phi:
+				for _, e := range y.Edges {
+					walk(e, d+1)
+				}
+			}
+		}
+		walk(v, 0)
+		return found
+	}
+	for _, f := range w.ModFuncs {
+		if f.Blocks == nil || f.Synthetic != "" {
+			continue
+		}
+		can := w.IsCanary(f)
+		name := w.FuncName(f)
+		ord := 0
+		instrs(f, func(in ssa.Instruction) {
+			mu, ok := in.(*ssa.MapUpdate)
+			if !ok {
+				return
+			}
+			h := fromHash(mu.Key)
+			if h == "" {
+				return
+			}
+			ord++
+			if !can {
+				n++
+			}
+			r.Add(Obligation{Rule: "HASHKEY", Key: fmt.Sprintf("HASHKEY / %s / keyed store#%d", name, ord), Pos: w.Pos(mu.Pos()), Status: Violated, Canary: can,
+				Detail: "the map is keyed by a hash of the element (" + h + "): two different elements with the same hash are taken for one (a seen-set drops the second, a memo answers with the first)"})
+		})
+	}
+	if n == 0 {
+		r.add("HASHKEY", "module scan", "-", Discharged, "no map of the module is keyed by a hash value")
+	}
+}
